@@ -210,6 +210,7 @@ pub fn run_lib(sc: &Scenario) -> Observation {
             nonce: t.nonce.clone(),
             results: 0,
             report: Report::None,
+            further: vec![],
             raw: None,
             raw_lossy: false,
         })
